@@ -58,6 +58,8 @@ def make(cfg):
 
     name, n = cfg["env"], cfg["n"]
     kw = dict(check_solution=False)
+    if cfg.get("torchrl"):
+        kw["_torchrl_mode"] = True  # documented: step() returns the caller's TensorDict with the new state under "next"
     if name == "tsp":
         return E.TSPEnv(generator_params=dict(num_loc=n), **kw), R.TSP
     if name == "atsp":
